@@ -84,7 +84,23 @@ fn main() {
         }
         let mut enc = Codec::<String>::new().max_frame_len(max);
         let mut w = BytesMut::new();
+        // a valid frame, then a rejected one, then another valid one on the SAME buffer: the rejected message must leave no
+        // bytes behind, and the stream must still decode to exactly the two valid messages
+        let ok1 = "b".repeat(max - 1);
+        enc.encode(ok1.clone(), &mut w).unwrap();
+        let len_before = w.len();
         let enc_rejects = enc.encode(over.clone(), &mut w).is_err();
+        let left_bytes = w.len() != len_before;
+        enc.encode(exact.clone(), &mut w).unwrap();
+        let mut d2 = Codec::<String>::new().max_frame_len(max);
+        let mut got = vec![];
+        loop { match d2.decode(&mut w) { Ok(Some(m)) => got.push(m), Ok(None) => break, Err(_) => { got.push("<decode error>".into()); break; } } }
+        if left_bytes || got != vec![ok1.clone(), exact.clone()] {
+            if reported.insert("rejected-message-corrupts-the-stream") {
+                rp_core::report(true, "rejected-message-corrupts-the-stream", json!({"max_frame_len": max, "sequence": ["valid", "too large (rejected)", "valid"]}), json!({"bytes_left_by_rejected_message": left_bytes, "decoded": got.len()}),
+                    &["codec::Encoder@Codec::encode.ensures#too_large_never_encoded", "codec::Encoder@Codec::encode.ensures#appends_exactly_one_frame", "codec::Encoder@Codec::encode.safety"]);
+            }
+        }
         // decode side: hand-made frame with length max+1
         let mut big = Codec::<String>::new().max_frame_len(max + 8);
         let mut w2 = BytesMut::new();
